@@ -57,9 +57,13 @@ def main():
         if args.replay:
             rc = mod.replay(ctx, args.replay)
             return rc
+        # translator step of this property, if any (regenerates Lean sources from /repo)
+        if hasattr(mod, "prepare"):
+            mod.prepare(ctx)
         # proof obligations
         ob = common.proof_obligations(ctx, mod.THEOREM_MODULES, mod.REQUIRED_THEOREMS,
-                                      extra_allowed=getattr(mod, "EXTRA_AXIOMS", []))
+                                      extra_allowed=getattr(mod, "EXTRA_AXIOMS", []),
+                                      allow_native_in=getattr(mod, "ALLOW_NATIVE_IN", ()))
         ctx.obligations = ob
         # correspondence + oracle
         mod.run(ctx)
